@@ -75,6 +75,8 @@ _SIGNATURE_TYPEERROR = (
     "object is not iterable",
     "unsupported operand",
     "has no len",
+    "of empty iterable",
+    "of empty sequence",
 )
 
 
@@ -450,13 +452,14 @@ def run_trace(world_cls, knobs, ops, seed=-1):
 # shrinking
 
 
-def shrink(world_cls, knobs, ops, vclass, budget=150, log=None):
+def shrink(world_cls, knobs, ops, vclass, budget=150, log=None, wall=90.0):
     """ddmin over the op list, then per-op and knob simplifiers.  A candidate
     is accepted only if it fails with the same violation class."""
     used = [0]
+    t_end = time.perf_counter() + wall
 
     def fails(k, o):
-        if used[0] >= budget:
+        if used[0] >= budget or (used[0] > 0 and time.perf_counter() > t_end):
             return False
         used[0] += 1
         r = run_trace(world_cls, k, o)
